@@ -1,7 +1,7 @@
 (* C06 - pinned statements (cardinality estimator of SetSketch).  card_of_sum is the expression
    found, identically, in get_cardinal_stats and in the parallel get_cardinal_estimate. *)
 From Coq Require Import Reals List.
-From PMH Require Import Gen.SetSketchFormulas Proofs.SetFormulas Gen.SetSketchLaw Proofs.SetLaw.
+From PMH Require Import Gen.SetSketchFormulas Proofs.SetFormulas Gen.SetSketchLaw Proofs.SetLaw Proofs.FloatSum.
 Import ListNotations.
 Open Scope R_scope.
 
@@ -29,7 +29,30 @@ Proof. exact ss_reg_threshold. Qed.
 Theorem C06_register_antitone : forall lnb x y, 0 < lnb -> 0 < x -> x <= y -> ss_reg_real lnb y <= ss_reg_real lnb x.
 Proof. exact ss_reg_antitone. Qed.
 
+(* 'agrees up to rounding': the sketcher adds the m binary64 terms b^-K_i from left to right starting from 0.0, the estimator on
+   a raw slice adds the same terms in whatever tree the work-stealing scheduler builds (zeros as identities).  For EVERY such
+   tree the two binary64 sums are within (1 +- 2^-53)^(number of additions) of each other ... *)
+Theorem C06_sequential_and_any_parallel_sum_agree : forall xs t,
+  Forall (fun x => fmt64 x /\ 0 <= x) xs -> leaves_ok t -> Permutation.Permutation (nonzero xs) (nonzero (leaves t)) ->
+  let s := fold_left (fun a x => rnd64 (a + x)) xs 0 in
+  (1 - u64) ^ length xs * fsum t <= (1 + u64) ^ depth t * s /\
+  (1 - u64) ^ depth t * s <= (1 + u64) ^ length xs * fsum t.
+Proof. exact fold_vs_tree. Qed.
+
+(* ... every binary64 summation tree over non-negative terms is within (1 +- 2^-53)^depth of the exact sum ... *)
+Theorem C06_any_sum_tree_is_accurate : forall t, leaves_ok t ->
+  0 <= rsum t /\ (1 - u64) ^ depth t * rsum t <= fsum t <= (1 + u64) ^ depth t * rsum t.
+Proof. exact fsum_bounds. Qed.
+
+(* ... and the two estimates are in the inverse ratio of the two sums *)
+Theorem C06_estimates_in_inverse_ratio_of_sums : forall b a m S1 S2, 1 < b -> 0 < a -> 0 < S1 -> 0 < S2 ->
+  card_of_sum b a m S1 * S1 = card_of_sum b a m S2 * S2.
+Proof. exact card_inverse_ratio. Qed.
+
 Print Assumptions C06_card_monotone.
+Print Assumptions C06_sequential_and_any_parallel_sum_agree.
+Print Assumptions C06_any_sum_tree_is_accurate.
+Print Assumptions C06_estimates_in_inverse_ratio_of_sums.
 Print Assumptions C06_card_positive.
 Print Assumptions C06_sum_antitone.
 Print Assumptions C06_increment_is_renyi_spacing.
